@@ -5,7 +5,7 @@ model; the harness executes each chain on real palette types of that channel cou
 field name, and records form, unit, length, observed capacity, address identity, flat contents (bit-exact tokens),
 error kind and size_of/align_of after every call; TraceCast.tla validates every recorded call against the model and
 the field names against the specification's declared-order table."""
-import json, os, re
+import json, os, re, time
 from common import *
 
 CFG = {"MaxN": 4, "MaxLen": 8, "MaxCap": 10}
@@ -86,6 +86,76 @@ def report_crash(ctx, c):
                                "how": "./check C04 --replay <this file>"})
 
 
+MIRI_EVERY = 35      # every 35th depth-1 chain (~240 scenarios, one type each, rotating): about 3 minutes
+MIRI_TIMEOUT = 1200
+
+
+def miri_cmd(hp, types, rotate, tp, cl):
+    return ["cargo", "+nightly", "miri", "run", "--offline", "--bin", "cast", "--", "--hist", hp, "--types", types,
+            "--rotate", str(rotate), "--out", tp, "--crashlog", cl]
+
+
+def miri_env():
+    return dict(os.environ, MIRIFLAGS="-Zmiri-disable-isolation", CARGO_NET_OFFLINE="true", CARGO_TERM_COLOR="never")
+
+
+def miri_run(hp, types, rotate, tp, cl, timeout):
+    """-> (status, detail): 'ok' | 'ub' (detail: type, chain, message) | 'absent' | 'timeout' | 'failed' (detail: text)"""
+    import subprocess
+    try:
+        if subprocess.run(["cargo", "+nightly", "miri", "--version"], cwd=HARNESS, capture_output=True, text=True,
+                          timeout=120).returncode != 0:
+            return "absent", None
+    except Exception:
+        return "absent", None
+    try:
+        r = subprocess.run(miri_cmd(hp, types, rotate, tp, cl), cwd=HARNESS, env=miri_env(), stdout=subprocess.DEVNULL,
+                           stderr=subprocess.PIPE, text=True, timeout=timeout)
+    except subprocess.TimeoutExpired:
+        return "timeout", None
+    if r.returncode == 0:
+        return "ok", (r.stderr or "").strip().splitlines()[-1:]
+    err = r.stderr or ""
+    m = re.search(r"error: (Undefined Behavior|unsupported operation|memory leaked|abnormal termination|the evaluated program)[^\n]*", err)
+    last = None
+    if os.path.exists(cl):
+        for line in open(cl):
+            last = line
+    if m and last:
+        ty, chain = last.rstrip("\n").split("\t", 1)
+        return "ub", (ty, json.loads(chain), err[m.start():m.start() + 600])
+    return "failed", err[-1500:]
+
+
+def miri_monitor(ctx, hs):
+    """Thorough tier: the same replayer on a sample of the depth-1 chains under Miri, as an execution monitor for
+    undefined behaviour inside the unsafe blocks (allocation layout on free, provenance, validity, bounds). Miri reporting
+    an error is a violating event; Miri being unavailable or too slow is recorded in the evidence, not a verdict."""
+    sample = hs[::MIRI_EVERY]
+    hp, tp, cl = ctx.p("miri.hist"), ctx.p("miri.ndjson"), ctx.p("miri.crashlog")
+    open(hp, "w").write("".join(h + "\n" for h in sample))
+    t = time.time()
+    st, d = miri_run(hp, "all", 1, tp, cl, MIRI_TIMEOUT)
+    log("miri monitor: %s, %d chains, %.0fs" % (st, len(sample), time.time() - t))
+    ctx.cov["miri"] = {"status": st, "chains": len(sample), "wall_s": round(time.time() - t)}
+    if st == "ok":
+        res = validate_trace(ctx, "TraceCast", tp, tag="miri")
+        ctx.cov["miri"]["scenarios"] = res.scenarios
+        if res.rejected:
+            raise ToolError("the recording made under Miri is rejected although the native one is not: %r" % (res.rejected[0][:2],))
+    elif st == "ub":
+        ty, chain, msg = d
+        report(ctx, {"kind": "cast-miri", "ty": ty, "form": chain[0][3], "op": chain[-1][0]},
+               "%s: Miri reports an error while executing the chain %s: %s" % (ty, json.dumps(chain), " ".join(msg.split())[:300]),
+               {"bin": "cast", "type": ty, "chain": chain, "miri": True, "message": msg, "how": "./check C04 --replay <this file>"})
+    elif st == "absent":
+        ctx.assumptions.append("Miri (cargo +nightly miri) is not installed: the undefined-behaviour monitor did not run")
+    elif st == "timeout":
+        ctx.assumptions.append("the Miri monitor did not finish within %d s and was abandoned (no verdict from it)" % MIRI_TIMEOUT)
+    else:
+        ctx.assumptions.append("the Miri monitor could not be run: " + " ".join(str(d).split())[-300:])
+
+
 def describe(ev, rs, info):
     return ("%s, initial %s of %s x %s (cap %s): %s(api=%s, m=%s) returned form=%s unit=%s len=%s cap=%s same_address=%s "
             "contents=%s err=%s elsize=%s elalign=%s; the specification says %s") % (
@@ -143,6 +213,12 @@ def run(ctx):
             report(ctx, coords, what, {"bin": "cast", "type": rs.get("ty") or ev.get("ty"), "scenario": scen,
                                        "rejected_event": ev, "trace_line": line, "how": "./check C04 --replay <this file>"})
         ctx.cov["traces_validated_against_impl"] += res.scenarios - len(bad_scen)
+        # the recording and its chunks are large in the thorough tier: keep them only when something was rejected
+        for fn in os.listdir(ctx.work):
+            if fn.startswith(tag + ".") and fn.endswith(".ndjson") and (".chunk" in fn or (not ctx.quick and not res.rejected)):
+                os.remove(os.path.join(ctx.work, fn))
+    if not ctx.quick and not ctx.violations:
+        miri_monitor(ctx, plan[0][1])
     ctx.cov["distinct_nontrivial"] = len(nontrivial)
     return finish(ctx, "model_checking",
                   rule="a case is one chain (initial buffer: family, channel count, form, unit, length, capacity; then a sequence "
@@ -162,6 +238,18 @@ def run(ctx):
 def replay(ctx, path):
     rp = json.load(open(path))["replay"]
     bins = cargo_build(["cast"])
+    if rp.get("miri"):
+        hp = ctx.p("replay.hist")
+        open(hp, "w").write(json.dumps(rp["chain"]) + "\n")
+        st, d = miri_run(hp, rp["type"], 0, ctx.p("replay.ndjson"), ctx.p("replay.crashlog"), MIRI_TIMEOUT)
+        if st == "ub":
+            print("VIOLATION property=C04 replay=%s" % path)
+            print("  Miri still reports: %s" % " ".join(d[2].split())[:400])
+            return 1
+        if st != "ok":
+            raise ToolError("Miri replay: %s %s" % (st, d))
+        print("replay accepted: Miri no longer reports an error on this chain")
+        return 0
     if rp.get("chain"):
         chain, ty = rp["chain"], rp["type"]
     else:
